@@ -51,7 +51,9 @@ Supply(m) ==
 PickExtra ==
   /\ ph = 1 /\ ph' = 2
   /\ \E oel \in BOOLEAN, ogas \in BOOLEAN, nep \in BOOLEAN, aux \in BOOLEAN, bcal \in BOOLEAN, dm \in {"consistent", "absent", "zero"},
-        chp \in {"no", "bio", "gas", "mixed"}, lsc \in BOOLEAN, oamb \in BOOLEAN, zel \in BOOLEAN :
+        chp \in {"no", "bio", "gas", "mixed"}, lsc \in BOOLEAN, oamb \in BOOLEAN, zel \in BOOLEAN, b2 \in {"no", "out", "noout"} :
+       \* a SECOND boiler of the same kind of biomass for DHW (another system id), with or without declared output
+       /\ (b2 # "no" => mix.bio # "no" /\ ~bcal /\ chp = "no" /\ ~zel /\ ~oamb /\ ~lsc /\ ~aux)
        \* an idle DHW electricity line (all zeros) next to a biomass supply: it is no DHW supply at all
        /\ (zel => ~mix.el /\ ~mix.hp /\ ~aux /\ (mix.bio # "no" \/ mix.dbio) /\ chp = "no" /\ ~oamb /\ ~bcal)
        \* the DHW heat pump's ambient heat may carry the low-SCOP tag; another service's heat pump may carry it too
@@ -63,7 +65,7 @@ PickExtra ==
        /\ (chp = "mixed" => mix.bio = "no" /\ ~mix.dbio /\ ~mix.red)
        \* the biomass boilers may also heat (another service of the same system, with its own declared output)
        /\ (bcal => mix.bio = "out" \/ mix.dbio)
-       /\ extra' = [oel |-> oel, ogas |-> ogas, nep |-> nep, aux |-> aux, bcal |-> bcal, chp |-> chp, lsc |-> lsc, oamb |-> oamb, zel |-> zel]
+       /\ extra' = [oel |-> oel, ogas |-> ogas, nep |-> nep, aux |-> aux, bcal |-> bcal, chp |-> chp, lsc |-> lsc, oamb |-> oamb, zel |-> zel, b2 |-> b2]
        /\ demand' = dm
        /\ comps' = (IF lsc THEN [i \in 1..Len(Supply(mix)) |-> IF Supply(mix)[i].kind = "USED" /\ Supply(mix)[i].cr = "EAMBIENTE"
                                                                 THEN [Supply(mix)[i] EXCEPT !.cm = LowScopTag] ELSE Supply(mix)[i]]
@@ -75,13 +77,14 @@ PickExtra ==
             \o (IF bcal /\ mix.bio = "out" THEN <<Used(6, "BIOMASA", "CAL", Const(30)), Out(6, "CAL", Const(25))>> ELSE <<>>)
             \o (IF bcal /\ mix.dbio THEN <<Used(7, "BIOMASADENSIFICADA", "CAL", Const(20)), Out(7, "CAL", Const(15))>> ELSE <<>>)
             \o (IF zel THEN <<Used(11, "ELECTRICIDAD", "ACS", Const(0))>> ELSE <<>>)
+            \o (IF b2 # "no" THEN <<Used(13, "BIOMASA", "ACS", Const(50))>> \o (IF b2 = "out" THEN <<Out(13, "ACS", Const(40))>> ELSE <<>>) ELSE <<>>)
             \o (IF nep THEN <<Used(0, "ELECTRICIDAD", "NEPB", Const(50))>> ELSE <<>>)
             \o (IF chp = "no" THEN <<>> ELSE <<Prod(10, "EL_COGEN", Const(30))>>)
             \o (IF chp = "bio" THEN <<Used(10, "BIOMASA", "COGEN", Const(80))>> ELSE <<>>)
             \o (IF chp = "gas" THEN <<Used(10, "GASNATURAL", "COGEN", Const(80))>> ELSE <<>>)
             \o (IF chp = "mixed" THEN <<Used(10, "BIOMASA", "COGEN", Const(50)), Used(10, "GASNATURAL", "COGEN", Const(40))>> ELSE <<>>)
             \o (IF aux THEN <<Aux(IF mix.el THEN 1 ELSE 2, "ACS", Const(10))>> ELSE <<>>)
-            \o (IF dm = "absent" THEN <<>> ELSE <<Need("ACS", Const(IF dm = "zero" THEN 0 ELSE Delivered10(mix)))>>)
+            \o (IF dm = "absent" THEN <<>> ELSE <<Need("ACS", Const(IF dm = "zero" THEN 0 ELSE Delivered10(mix) + (IF b2 # "no" THEN 40 ELSE 0)))>>)
   /\ UNCHANGED <<n, mix>>
 Next == PickMix \/ PickExtra
 Spec == Init /\ [][Next]_vars
@@ -93,7 +96,7 @@ MapV(C, f(_)) == [i \in 1..Len(C) |-> [C[i] EXCEPT !.v = f(C[i].v)]]
 Without(C, P(_)) == SelectSeq(C, LAMBDA x : ~P(x))
 
 \* the mix mixes biomass with a carrier that is not nearby and has no declared output for it
-NonComputable == (mix.bio = "noout") /\ (mix.gas \/ mix.el \/ mix.hp \/ mix.dbio)
+NonComputable == (mix.bio = "noout" \/ extra.b2 = "noout") /\ (mix.gas \/ mix.el \/ mix.hp \/ mix.dbio)
 \* renewable heat of the consistent supply per step, x10: ambient, solar, district (1/2), biomass, PV share of DHW electricity
 Computable == demand = "consistent" /\ ~NonComputable
 
@@ -116,13 +119,13 @@ DBioFrac == Norm(1028, 1113)
 ClosedForm ==
   (Done /\ Computable /\ ~mix.pv /\ ~extra.aux /\ extra.chp = "no" /\ ~extra.lsc) =>
      A(comps, Zero).v = RDiv(RAdd(RAdd(R((IF mix.hp THEN 60 ELSE 0) + (IF mix.ts THEN 30 ELSE 0)), Norm(IF mix.red THEN 50 ELSE 0, 2)),
-                                  RAdd(RMul(R(IF mix.bio # "no" THEN 80 ELSE 0), BioFrac), RMul(R(IF mix.dbio THEN 40 ELSE 0), DBioFrac))),
-                             R(Delivered10(mix)))
+                                  RAdd(RMul(R((IF mix.bio # "no" THEN 80 ELSE 0) + (IF extra.b2 # "no" THEN 40 ELSE 0)), BioFrac), RMul(R(IF mix.dbio THEN 40 ELSE 0), DBioFrac))),
+                             R(Delivered10(mix) + (IF extra.b2 # "no" THEN 40 ELSE 0)))
 \* direct electric + PV, single DHW use of electricity: the PV used for DHW per step over the demand
 ClosedFormPv ==
   (Done /\ Computable /\ mix.pv /\ mix.el /\ ~mix.hp /\ ~mix.ts /\ ~mix.gas /\ ~mix.red /\ mix.bio = "no" /\ ~mix.dbio /\ ~extra.aux /\ ~extra.oel /\ extra.chp = "no" /\ ~extra.oamb) =>
      A(comps, Zero).v = RDiv(R(ISumSet(LAMBDA t : IMin(40, IF t = 1 THEN 30 ELSE 100), 1..n)), R(n * 40))
 
 Emit == Done => PrintT(<<"CASE", ToJson([src |-> [comps |-> comps], demand |-> demand,
-                                          rare |-> (extra.zel \/ extra.oamb \/ extra.chp = "mixed")])>>)
+                                          rare |-> (extra.zel \/ extra.oamb \/ extra.chp = "mixed" \/ extra.b2 # "no")])>>)
 =============================================================================
